@@ -48,7 +48,7 @@ RULE = ("seeded trash worlds (files, deep directories, symlinks; single and mult
         "destinations); every state before each mutating call is compared with the model's state sequence and checked "
         "against Effects.crashCheck; for a third of the worlds a keyboard interrupt behind each mutating call in turn, the state "
         "left by the program's own handlers judged by the same predicate; two worlds with 101-130 entries in one directory (whatever "
-        "is done in batches), every intermediate state judged; thorough: real kills + re-run of trash-empty / trash-rm to completion")
+        "is done in batches), every intermediate state judged; cross-volume directory restores with a keyboard interrupt behind every call of the copy AND of the delete phase; thorough: real kills + re-run of trash-empty / trash-rm to completion")
 
 
 def rerun_task(task):
@@ -209,8 +209,10 @@ def run(tier, seed):
     info = audit("C15")
     results = run_tasks(eval_task, tasks_for("C15", seed, CFG, 150 if tier == "quick" else 2500))
     absorb(ck, results, CFG)
-    x_cfg = dict(CFG, tweak=None, interrupt_sweep=0)
-    absorb(ck, run_tasks(eval_task, [{"pid": "C15", "seed": seed, "i": 1, "cfg": x_cfg, "world": cross_volume_world(seed, i)}
+    # (cross-volume directory restores: copy, then delete the source; a keyboard interrupt behind EVERY call of both
+    #  phases - a handler that tidies up the destination is only right while the copy is still going on)
+    x_cfg = dict(CFG, tweak=None, interrupt_sweep=120)
+    absorb(ck, run_tasks(eval_task, [{"pid": "C15", "seed": seed, "i": 0, "cfg": x_cfg, "world": cross_volume_world(seed, i)}
                                      for i in range(6 if tier == "quick" else 40)]), x_cfg)
     same_cfg = dict(CFG, tweak=None, violations=("crash15", "effects"))
     absorb(ck, run_tasks(eval_task, [{"pid": "C15", "seed": seed, "i": 0, "cfg": same_cfg, "world": same_inode_world(seed, i)}
